@@ -47,7 +47,7 @@ func (c43Engine) WarmupRuns() int  { return 2 }
 
 var (
 	c43Users  = []string{"admin", "u1", "u2"}
-	c43DSNs   = []string{"dr", "du"} // restricted, unrestricted
+	c43DSNs   = []string{"dr", "du", "dr2"} // restricted, unrestricted, a second restricted one with the same table names
 	c43Tables = []string{"t1", "t2"}
 	c43Perms  = []string{"read", "write", "update", "delete", "admin"}
 	c43Hash   = map[string]string{}
@@ -78,6 +78,8 @@ func (c43Engine) Generate(seed uint64, tier string) *simrun.Case {
 		d := int64(0)
 		if r.Chance(1, 4) {
 			d = 1
+		} else if r.Chance(1, 3) {
+			d = 2
 		}
 		t := int64(r.Intn(2))
 		switch x := r.Intn(100); {
@@ -183,12 +185,12 @@ func (c43Engine) Execute(t *testing.T, c *simrun.Case, keepLog bool) *simrun.Out
 				db.Exec("insert into " + tb + " values (1,'one'),(2,'two')")
 			}
 			db.Close()
-			if err := svc.WriteDSN(1, "admin", defs.DSN{Name: d, ID: fmt.Sprintf("00000000-0000-0000-0000-0000000000d%d", i), Provider: "sqlite", Database: path, Restricted: d == "dr"}); err != nil {
+			if err := svc.WriteDSN(1, "admin", defs.DSN{Name: d, ID: fmt.Sprintf("00000000-0000-0000-0000-0000000000d%d", i), Provider: "sqlite", Database: path, Restricted: d != "du"}); err != nil {
 				herr = "WriteDSN: " + err.Error()
 				return
 			}
-			if d == "dr" {
-				// DSN-level access to the restricted DSN is given to everybody: the table grants are
+			if d != "du" {
+				// DSN-level access to the restricted DSNs is given to everybody: the table grants are
 				// what is under test. (Granting anything on a DSN also marks it restricted, so the
 				// unrestricted DSN gets no DSN-level grants; it needs none.)
 				for _, u := range c43Users[1:] {
@@ -226,7 +228,7 @@ func (c43Engine) Execute(t *testing.T, c *simrun.Case, keepLog bool) *simrun.Out
 					break
 				}
 				u := c43Users[int(op.Arg(0))%3]
-				d := c43DSNs[int(op.Arg(1))%2]
+				d := c43DSNs[int(op.Arg(1))%3]
 				tb := c43Tables[int(op.Arg(2))%2]
 				k := key{u, d, tb}
 				base := "/dsns/" + d + "/tables/" + tb
@@ -297,21 +299,22 @@ func (c43Engine) Execute(t *testing.T, c *simrun.Case, keepLog bool) *simrun.Out
 					}
 					g := grants[k]
 					allowed := u == "admin" || d == "du" || (g != nil && (g[need] || g["admin"]))
+					restricted := d != "du"
 					switch {
 					case !allowed && ok2xx:
 						fail("allowed-without-grant", "op %d: %s (needs %s) by %s on restricted %s.%s succeeded with %d although the permission store records %v for that user, DSN and table", i, op.K, need, u, d, tb, st, g)
 					case !allowed && after != before:
 						fail("changed-without-grant", "op %d: %s by %s on restricted %s.%s was answered %d but the table changed from %s to %s", i, op.K, u, d, tb, st, before, after)
-					case allowed && u != "admin" && d == "dr" && (st == http.StatusForbidden || st == http.StatusUnauthorized):
+					case allowed && u != "admin" && restricted && (st == http.StatusForbidden || st == http.StatusUnauthorized):
 						// the statement is "only if": a granted request that is refused for another
 						// reason (dropping a table also needs DSN-level administration) is not a violation
 						out.Probe("granted_but_refused_for_another_reason", 1)
 					case allowed && (st == http.StatusForbidden || st == http.StatusUnauthorized):
-						fail("unlimited-caller-refused", "op %d: %s (needs %s) by %s on %s.%s was refused with %d although administrators and unrestricted DSNs are not limited (administrator=%v, restricted=%v, grant %v): %.200s", i, op.K, need, u, d, tb, st, u == "admin", d == "dr", g, resp)
+						fail("unlimited-caller-refused", "op %d: %s (needs %s) by %s on %s.%s was refused with %d although administrators and unrestricted DSNs are not limited (administrator=%v, restricted=%v, grant %v): %.200s", i, op.K, need, u, d, tb, st, u == "admin", restricted, g, resp)
 					}
 					if !allowed {
 						out.Probe("requests_that_must_be_refused", 1)
-					} else if u != "admin" && d == "dr" {
+					} else if u != "admin" && restricted {
 						out.Probe("requests_allowed_by_a_grant", 1)
 					}
 					if op.K == "droptable" && ok2xx {
